@@ -134,7 +134,7 @@ def run_history(acc: Acc, r: random.Random, workdir: str, hid: int, n_ops: int) 
 	from vf.gen.histproj import HistProject
 	from vf.gen.typed import TypedGen
 	from vf.session import Session
-	hp = HistProject(r.choice(['chain', 'diamond']))
+	hp = HistProject(r.choice(['chain', 'diamond', 'deep']))
 	for _ in range(r.choice([0, 1, 3])):
 		k, v = hp.random_edit(r)
 		hp.variants[k] = v
@@ -278,7 +278,7 @@ def run_history(acc: Acc, r: random.Random, workdir: str, hid: int, n_ops: int) 
 
 def cli_determinism(acc: Acc, r: random.Random, workdir: str, seed: int) -> None:
 	from vf.gen.histproj import HistProject
-	hp = HistProject(r.choice(['chain', 'diamond']))
+	hp = HistProject(r.choice(['chain', 'diamond', 'deep']))
 	for _ in range(2):
 		k, v = hp.random_edit(r)
 		hp.variants[k] = v
